@@ -85,7 +85,11 @@ def do_replay(prop, path, verbose=True):
 
     def sink(step, op, ev, viol):
         events.append((step, profile.kind_of(op) if hasattr(profile, "kind_of") else op.get("op"), ev))
-    res = kernel.replay(profile, doc.get("config", {}), doc["ops"], event_sink=sink)
+    kernel.start_clean(profile)      # this interpreter has executed nothing yet
+    try:
+        res = kernel.replay(profile, doc.get("config", {}), doc["ops"], event_sink=sink)
+    finally:
+        kernel.stop_clean()
     if verbose:
         for step, kind, ev in events:
             print("  step %2d  %-40s %s" % (step, kind, ev))
